@@ -34,6 +34,7 @@ type CaseC struct {
 	Src     string              `json:"src"`
 	Classes []string            `json:"classes"`
 	Mut     Mutation            `json:"mut"`
+	Pad     *Pad                `json:"pad,omitempty"` // comment / blank-line padding up to a file-size class
 }
 
 type wrongExpr struct{ detail, expr string }
@@ -309,7 +310,7 @@ func genC(t *rapid.T) CaseC {
 		place = n
 	}
 
-	src := render(top, st)
+	src, tops := renderTop(top, st)
 	switch {
 	case placeParent != nil:
 		mut.LineFrom, mut.LineTo = placeParent.LineFrom, placeParent.LineTo
@@ -319,7 +320,11 @@ func genC(t *rapid.T) CaseC {
 	if alt != nil {
 		mut.AltFrom, mut.AltTo = alt.LineFrom, alt.LineTo
 	}
-	return CaseC{Cfg: cfg, Src: src, Classes: p.classList(), Mut: mut}
+	c := CaseC{Cfg: cfg, Src: src, Classes: p.classList(), Mut: mut}
+	if padWanted(t) {
+		c.Pad = choosePad(t, rapid.SampledFrom(padKindsComment).Draw(t, "padkind"), src, tops, st.NL)
+	}
+	return c
 }
 
 func sortStrings(s []string) {
@@ -333,7 +338,23 @@ func sortStrings(s []string) {
 func checkC(c CaseC) *core.Violation {
 	m := c.Mut
 	id := m.Kind + "|" + m.Detail
-	_, err := loadProfile([]byte(c.Src))
+	text, _, added := expandPad(c.Src, c.Cfg, c.Pad)
+	if c.Pad != nil {
+		id += "|" + padLabels(c.Pad, len(text))[1]
+		shift := func(l *int) {
+			if *l >= c.Pad.Line {
+				*l += added
+			}
+		}
+		// an item that spans the padding point grows by the padding (only the top-level file body does)
+		shift(&m.LineFrom)
+		shift(&m.LineTo)
+		if m.AltFrom > 0 {
+			shift(&m.AltFrom)
+			shift(&m.AltTo)
+		}
+	}
+	_, err := loadProfile(text)
 	if err == nil {
 		return core.V("accepted|"+id, "profile with fault %s at %s (lines %d-%d) was loaded without an error\n--- profile ---\n%s", id, m.Target, m.LineFrom, m.LineTo, c.Src)
 	}
@@ -395,7 +416,11 @@ func classifyC(c CaseC) core.Class {
 	}
 	depth := strings.Count(c.Mut.Target, ".")
 	cl.Labels = append(cl.Labels, fmt.Sprintf("depth:%d", depth))
+	cl.Labels = append(cl.Labels, padLabels(c.Pad, len(c.Src))...)
 	cl.Fingerprint = fmt.Sprintf("%s|%s|depth=%d", c.Mut.Kind, c.Mut.Detail, depth)
+	if c.Pad != nil {
+		cl.Fingerprint = c.Mut.Kind + padFingerprint(c.Pad)
+	}
 	return cl
 }
 
